@@ -258,6 +258,6 @@ pub fn run(ctx: &mut Ctx) {
     }
     ctx.prop(&ArenaSeq);
     // thorough tier: coverage-guided allocation sequences (ASan + alignment / overlap / pattern checks inside the target)
-    let c = crate::campaign::Campaign { target: "fuzz_arena", sanitizer: "address", runs: 4_000, max_len: 120, jobs: 12, seeds: crate::campaign::byte_seeds(24, 120), dict: vec![] };
+    let c = crate::campaign::Campaign { target: "fuzz_arena", sanitizer: "address", runs: 10_000, max_len: 120, jobs: 12, seeds: crate::campaign::byte_seeds(24, 120), dict: vec![] };
     crate::campaign::guided(ctx, &ArenaSeq, c, |b| Some(crate::fuzzside::arena_case(b)));
 }
